@@ -441,6 +441,10 @@ func execC05(x *Ctx, sc *wire.Scenario) *wire.Result {
 			sig := batch + "diverge:" + kind + ":" + feat
 			if batch == "" {
 				sig = "diverge:" + feat
+			} else if feat == "typed-bytes-reach-cursor-query-read" {
+				// the one known defect that the core scripts reach as well (rarely): keys read by the
+				// cursor position query are put back without the main read path's bookkeeping
+				sig = batch + "diverge:" + feat
 			}
 			if out.End == "PANIC" {
 				sig = batch + "diverge:" + panicSig(out.Panic, out.PanicStack) + ":" + feat
